@@ -10,6 +10,7 @@ from vlib.logixbench import CONFIGS, LogixScenario
 LEVEL = "exploration"
 SHARDS = {"quick": 8, "thorough": 16}
 TIMEOUT = {"quick": 900, "thorough": 3000}
+MIN_EVALUATIONS = {"quick": 15000, "thorough": 15000}  # fewer oracle evaluations than this means the workload collapsed: inconclusive
 RULE = ("random controller projects (user tags of every kind, 0-3 programs with routines and tags, tasks, Map:/Cxn:, double-underscore and "
         "system-bit symbols, module I/O tags, aliases, UDTs nested <=3 with packed BOOLs on hidden hosts, arrays of structs, string types "
         "of capacity 1..4100, template ids inside and outside 0x100-0xEFF) are uploaded through open() / get_tag_list(None | '*' | program) "
